@@ -7,6 +7,7 @@ godebug default=go1.22
 require (
 	github.com/awslabs/ar-go-tools v0.0.0
 	golang.org/x/tools v0.24.0
+	gopkg.in/yaml.v3 v3.0.1
 	pgregory.net/rapid v1.3.0
 )
 
@@ -19,7 +20,6 @@ require (
 	golang.org/x/sys v0.25.0 // indirect
 	golang.org/x/term v0.24.0 // indirect
 	gonum.org/v1/gonum v0.15.0 // indirect
-	gopkg.in/yaml.v3 v3.0.1 // indirect
 )
 
 replace github.com/awslabs/ar-go-tools => /repo
